@@ -7,6 +7,13 @@ ENGINES = [
 NOTES = "All checks rebuild from /repo's current working tree. Exit 2 = internal error of the machinery (never a verdict)."
 NOT_APPLICABLE = {}
 META = {
+    "C18": {
+        "engine": "bounded exhaustive enumeration + identity oracle",
+        "design_ref": "DESIGN.md section 3 C18",
+        "technique": "bounded exhaustive enumeration of recorded points/batches over typed boundary value and special-character alphabets, write->replay identity oracle in both clock modes inside synctest bubbles (goroutine-leak oracle); worker crashes through repository frames are reported as violations",
+        "level_text": "Every case is written with the real recording writers and replayed through the real Replay*FromIO functions (reader and replayer goroutines, fast clock) in a bubble; identity on db, rp, name, tags, fields incl. Go types, group, order and time (identical or one constant shift, batch end time included).",
+        "level_note": "Trusted: influxdb/models line protocol encoder/parser (its own limitations on backslashes/newlines in keys are excluded from the alphabet), encoding/json. The replay service's file handling and the task hookup are not covered.",
+    },
     "C13": {
         "engine": "bounded exhaustive enumeration + round-trip oracle",
         "design_ref": "DESIGN.md section 3 C13",
